@@ -86,6 +86,23 @@ structure LeafEntry where
   overflow : Bool
   cell : ByteArray
 
+/-- entry `i` of a leaf page with `n` entries -/
+def decodeLeafEntry (p : ByteArray) (n i : Nat) : Except String LeafEntry := do
+  let off (i : Nat) : Nat := u16le p (2 + 34 * i + 32) % 32768
+  let raw := u16le p (2 + 34 * i + 32)
+  let s := raw % 32768
+  let e := if i + 1 == n then PAGE else off (i + 1)
+  if s < 2 + 34 * n then throw s!"leaf: cell {i} starts inside the cell pointers"
+  if e < s then throw s!"leaf: cell {i} has negative length"
+  if e > PAGE then throw s!"leaf: cell {i} ends after the page"
+  let ov := raw ≥ 32768
+  let len := e - s
+  if ov then
+    if len < 44 || len % 4 != 0 || len > 40 + 4 * MAX_OVERFLOW_CELL_NODE_POINTERS then
+      throw s!"leaf: overflow cell {i} of length {len}"
+  else if len > MAX_LEAF_VALUE_SIZE then throw s!"leaf: inline value {i} of length {len}"
+  pure { key := p.extract (2 + 34 * i) (2 + 34 * i + 32), overflow := ov, cell := p.extract s e }
+
 /-- `n: u16 | (key ++ offset)[n] | padding | cells`; a cell ends where the next one starts, the last
 one at the end of the page; bit 15 of the offset marks an overflow cell. -/
 def decodeLeaf (p : ByteArray) : Except String (List LeafEntry) := do
@@ -93,21 +110,7 @@ def decodeLeaf (p : ByteArray) : Except String (List LeafEntry) := do
   let n := u16le p 0
   if n == 0 then throw "leaf: n = 0"
   if 2 + 34 * n ≥ PAGE then throw s!"leaf: n = {n} does not fit"
-  let off (i : Nat) : Nat := u16le p (2 + 34 * i + 32) % 32768
-  (List.range n).mapM (fun i => do
-    let raw := u16le p (2 + 34 * i + 32)
-    let s := raw % 32768
-    let e := if i + 1 == n then PAGE else off (i + 1)
-    if s < 2 + 34 * n then throw s!"leaf: cell {i} starts inside the cell pointers"
-    if e < s then throw s!"leaf: cell {i} has negative length"
-    if e > PAGE then throw s!"leaf: cell {i} ends after the page"
-    let ov := raw ≥ 32768
-    let len := e - s
-    if ov then
-      if len < 44 || len % 4 != 0 || len > 40 + 4 * MAX_OVERFLOW_CELL_NODE_POINTERS then
-        throw s!"leaf: overflow cell {i} of length {len}"
-    else if len > MAX_LEAF_VALUE_SIZE then throw s!"leaf: inline value {i} of length {len}"
-    pure { key := p.extract (2 + 34 * i) (2 + 34 * i + 32), overflow := ov, cell := p.extract s e })
+  (List.range n).mapM (decodeLeafEntry p n)
 
 /-! ## overflow cells and pages -/
 
